@@ -103,3 +103,51 @@ func (d DeepSite) DeepGates() []Gate {
 	}
 	return out
 }
+
+// UnexpectedCallers is the helper-transparent form of a who-may-call table.
+// refs are the references to the protected function(s); allowed is the frozen
+// table of root function names. A referrer that is not in the table is still
+// accepted when it is an unexported function or method of a loaded package all
+// of whose own referrers are accepted (recursively, bounded depth): extracting
+// a block that calls the protected function into a private helper of an
+// allowed caller does not widen who may reach it. Returned: the referrers that
+// are neither allowed nor such helpers.
+func (p *Prog) UnexpectedCallers(refs []Ref, allowed []string) []string {
+	ok := map[string]bool{}
+	for _, a := range allowed {
+		ok[a] = true
+	}
+	var accepted func(fn *Fn, depth int, busy map[*Fn]bool) bool
+	accepted = func(fn *Fn, depth int, busy map[*Fn]bool) bool {
+		root := fn.Root()
+		if ok[root.Name] {
+			return true
+		}
+		if depth <= 0 || root.Obj == nil || root.Obj.Exported() || busy[root] {
+			return false
+		}
+		busy[root] = true
+		defer delete(busy, root)
+		rs := p.RefsTo(func(o types.Object) bool { return o == types.Object(root.Obj) })
+		if len(rs) == 0 {
+			return false
+		}
+		for _, r := range rs {
+			if r.Fn == nil || !accepted(r.Fn, depth-1, busy) {
+				return false
+			}
+		}
+		return true
+	}
+	bad := map[string]bool{}
+	for _, r := range refs {
+		if r.Fn == nil {
+			bad["<package-level>"] = true
+			continue
+		}
+		if !accepted(r.Fn, 3, map[*Fn]bool{}) {
+			bad[r.Fn.Root().Name] = true
+		}
+	}
+	return SortedKeys(bad)
+}
